@@ -113,7 +113,10 @@ def gen_case(rnd, tier, index):
         pre = list(dag.order) if wrnd.random() < 0.5 else wrnd.sample(
             dag.order, wrnd.randint(2, len(dag.order)))
         # some unbounded ranges are evaluated before the save, so they exist afterwards
-        for a in wrnd.sample(dag.order, min(3, len(dag.order))):
+        # (rows / columns that hold something: a blank cell beyond the used area gives
+        # pycel nothing to clip the range to)
+        filled = [a for a in dag.order if 'f' in dag.cell[a] or dag.cell[a].get('v') is not None]
+        for a in wrnd.sample(filled, min(3, len(filled))):
             sheet, coord = wbgen.split_addr(a)
             r, c = wbgen.coord_rc(coord)
             col = wbgen.rc_coord(1, c)[:-1]
